@@ -245,7 +245,7 @@ func checkC17(p *core.Program, r *core.Report) {
 
 	// ---- R2
 	nap := 0
-	core.EachInstr(proc, func(in ssa.Instruction) {
+	eachInstrWithCallees(p, proc, "mdns", 2, func(in ssa.Instruction) {
 		c, ok := in.(*ssa.Call)
 		if !ok || !isBuiltin(in, "append") {
 			return
@@ -289,7 +289,65 @@ func checkC17(p *core.Program, r *core.Report) {
 				n := core.CalleeName(&call.Call)
 				return n == "slices.Contains" || n == "slices.ContainsFunc" || n == "slices.IndexFunc"
 			}
-			if core.Guarded(in, orEdges(flagEdge, containsEdge)) {
+			// equality edges: an address equal to the event's address was found in the entry
+			eqFound := func(b *ssa.BasicBlock, idx int) bool {
+				i := core.BlockIf(b)
+				if i == nil {
+					return false
+				}
+				v, truth := core.Truth(i.Cond, idx)
+				if bo, ok := v.(*ssa.BinOp); ok && (bo.Op == token.EQL || bo.Op == token.NEQ) {
+					isStr := func(x ssa.Value) bool {
+						c, ok := x.(*ssa.Call)
+						return ok && core.CalleeName(&c.Call) == "(net.IP).String"
+					}
+					if isStr(bo.X) && isStr(bo.Y) {
+						return truth == (bo.Op == token.EQL)
+					}
+				}
+				if call, ok := v.(*ssa.Call); ok && truth {
+					n := core.CalleeName(&call.Call)
+					return n == "(net.IP).Equal" || n == "bytes.Equal"
+				}
+				return false
+			}
+			// headers of loops over the event's own address list end "this address"
+			isIterEnd := func(y ssa.Instruction) bool {
+				b := y.Block()
+				if len(b.Instrs) == 0 || b.Instrs[0] != y {
+					return false
+				}
+				iff := core.BlockIf(b)
+				if iff == nil {
+					return false
+				}
+				bo, ok := iff.Cond.(*ssa.BinOp)
+				if !ok || bo.Op != token.LSS {
+					return false
+				}
+				lc, ok := bo.Y.(*ssa.Call)
+				if !ok || !isBuiltin(lc, "len") {
+					return false
+				}
+				if f, _ := core.LoadedField(lc.Call.Args[0]); f != nil {
+					return false // loop over entry.Addresses (inner)
+				}
+				st, ok := lc.Call.Args[0].Type().Underlying().(*types.Slice)
+				return ok && core.TypeIs(st.Elem(), "net", "IP")
+			}
+			neq, leaks := 0, false
+			for _, b := range in.Parent().Blocks {
+				for idx := range b.Succs {
+					if eqFound(b, idx) {
+						neq++
+						first := b.Succs[idx].Instrs[0]
+						if first == in || core.PathSearch(in.Parent(), first, func(y ssa.Instruction) bool { return y == in }, isIterEnd, nil) != nil {
+							leaks = true
+						}
+					}
+				}
+			}
+			if core.Guarded(in, orEdges(flagEdge, containsEdge)) || (neq > 0 && !leaks) {
 				r.OK(R2, key, p.Pos(in.Pos()), "only when no equal address is present")
 			} else {
 				r.Fail(R2, key, p.Pos(in.Pos()), "an address is merged into an entry without the not-yet-present check: duplicates accumulate")
@@ -331,7 +389,17 @@ func checkC17(p *core.Program, r *core.Report) {
 		}
 	}
 	nloops := 0
-	for _, b := range proc.Blocks {
+	var loopBlocks []*ssa.BasicBlock
+	{
+		seenFn := map[*ssa.Function]bool{}
+		eachInstrWithCallees(p, proc, "mdns", 2, func(in ssa.Instruction) {
+			if !seenFn[in.Parent()] {
+				seenFn[in.Parent()] = true
+				loopBlocks = append(loopBlocks, in.Parent().Blocks...)
+			}
+		})
+	}
+	for _, b := range loopBlocks {
 		iff := core.BlockIf(b)
 		if iff == nil {
 			continue
